@@ -59,10 +59,19 @@ def generate(tier, rng):
             # the last entry often ends exactly where the tier ends (what blank filling and Praat produce)
             if t["kind"] == "I" and t["entries"] and rng.random() < 0.4:
                 t["entries"][-1][1] = mx
+            if t["kind"] == "P" and t["entries"] and rng.random() < 0.3 and all(e[0] < mx for e in t["entries"]):
+                t["entries"][-1][0] = mx           # a point right at the end of the span
         a, b = sorted((rng.randint(0, mx), rng.randint(0, mx)))
         # a textgrid may span more than its tiers do (Textgrid(min, max) given explicitly, or after removeTier)
         tgmax = mx + rng.randint(1, 9) if rng.random() < 0.35 else mx
-        cases.append({"op": "tgerase", "tiers": tiers, "tgmax": tgmax, "args": {"a": a, "b": b, "shrink": rng.random() < 0.6},
+        shrink = rng.random() < 0.6
+        if rng.random() < 0.08:
+            # a region that only touches the span: it begins where the textgrid ends (or where the tiers end); nothing to
+            # shrink there, but a point right on that time belongs to the region
+            a = rng.choice([mx, tgmax])
+            b = a + rng.randint(1, 5)
+            shrink = False
+        cases.append({"op": "tgerase", "tiers": tiers, "tgmax": tgmax, "args": {"a": a, "b": b, "shrink": shrink},
                       "scale": gen.pick_scale(rng, decimal_share=0.6)})
     return cases
 
